@@ -1552,6 +1552,34 @@ func (c *ovfCtx) convOfCallResult(r *core.Run, sp ovfSpec, cv *ssa.Convert, call
 					ub = minBig(ub, k)
 				}
 			}
+			// n != C met on the path: a bound equal to C tightens by one
+			for changed := true; changed; {
+				changed = false
+				for _, l := range lits {
+					cond, truth := l.cond, l.truth
+					for {
+						un, isNot := cond.(*ssa.UnOp)
+						if !isNot || un.Op != token.NOT {
+							break
+						}
+						cond, truth = un.X, !truth
+					}
+					bo, isBin := cond.(*ssa.BinOp)
+					if !isBin || (bo.Op != token.EQL && bo.Op != token.NEQ) {
+						continue
+					}
+					differs := (bo.Op == token.EQL && !truth) || (bo.Op == token.NEQ && truth)
+					if !differs {
+						continue
+					}
+					for _, pair := range [][2]ssa.Value{{bo.X, bo.Y}, {bo.Y, bo.X}} {
+						if k := ovfConst(pair[1]); k != nil && c.term(pair[0]) == xt && k.Cmp(ub) == 0 && ub.Sign() > 0 {
+							ub = new(big.Int).Sub(ub, big.NewInt(1))
+							changed = true
+						}
+					}
+				}
+			}
 			if ub.Cmp(worst) > 0 {
 				worst = ub
 				worstPath = ""
